@@ -89,7 +89,7 @@ pub fn run(ctx: &Ctx) -> i32 {
     let rec = new_rec(ctx, "C04");
     {
         let mut r = rec.borrow_mut();
-        r.rule = "runtime: history of value trees / envelopes sized by a fresh TLengthProtocol instance (binary, binary-LE, compact, unchecked) and by the writing instance itself, then written; size must equal the buffer growth per item; non-trivial = >= 2 struct levels, a field-id gap > 15 / non-ascending id, or a bool field (the stateful parts of the compact length computation); distinct by hash of the case".into();
+        r.rule = "runtime: history of value trees / envelopes sized by a fresh TLengthProtocol instance (binary, binary-LE, compact, unchecked) and by the writing instance itself, then written; size must equal the buffer growth per item; the hand-written TApplicationException message (empty / short / long text x 6 kinds x 3 protocols) likewise; non-trivial = >= 2 struct levels, a field-id gap > 15 / non-ascending id, or a bool field (the stateful parts of the compact length computation); distinct by hash of the case".into();
         r.assumptions = vec!["generated-type part (Message::size of emitted types) is added by the generated-code pipeline when present".into()];
     }
     if let Some(rp) = &ctx.replay {
@@ -107,6 +107,41 @@ pub fn run(ctx: &Ctx) -> i32 {
         };
     }
     runtime_part(ctx, &rec);
+    // the hand-written Message of the runtime: TApplicationException (empty, short and long text)
+    if rec.borrow().violations.is_empty() {
+        use pilota::thrift::{ApplicationException, ApplicationExceptionKind, Message};
+        let mut reported = std::collections::BTreeSet::new();
+        for msg in [String::new(), "x".to_string(), "boom ".repeat(40), "\u{e9}\u{4e2d}".to_string()] {
+            for kind in [0i32, 1, 6, 10, -1, 1 << 20] {
+                for pk in [PKind::Binary, PKind::BinaryLe, PKind::Compact] {
+                    {
+                        let mut r = rec.borrow_mut();
+                        r.case(fp(&("appex", &msg, kind, format!("{:?}", pk))), true, || json!(format!("TApplicationException({}, {:?}) {:?}", kind, msg, pk)));
+                        r.class("runtime: application exception");
+                    }
+                    let ex = ApplicationException::new(ApplicationExceptionKind::from_i32(kind), msg.clone());
+                    let m2 = msg.clone();
+                    let r = catch(move || {
+                        let mut sbuf = bytes::BytesMut::new();
+                        let size = vrt::with_writer!(pk, &mut sbuf, |p| ex.size(&mut p));
+                        let mut buf = bytes::BytesMut::new();
+                        let ok = vrt::with_writer!(pk, &mut buf, |p| ex.encode(&mut p)).is_ok();
+                        (size, buf.len(), ok)
+                    });
+                    let f = match r {
+                        Err(p) => Some(Fail::new(&format!("appex-panic-{:?}", pk), format!("{:?}: sizing / encoding TApplicationException({}, {:?}) panicked: {}", pk, kind, m2, p))),
+                        Ok((size, wrote, ok)) if !ok || size != wrote => Some(Fail::new(&format!("appex-size-differs-{:?}", pk), format!("{:?}: TApplicationException({}, {:?}) reports size {} and encoding wrote {} bytes (encode ok: {})", pk, kind, m2, size, wrote, ok))),
+                        _ => None,
+                    };
+                    if let Some(f) = f {
+                        if reported.insert(f.key.clone()) {
+                            report(ctx, &rec, "appex-size", &json!({"kind": kind, "msg": m2, "pk": format!("{:?}", pk)}), &f);
+                        }
+                    }
+                }
+            }
+        }
+    }
     if rec.borrow().violations.is_empty() {
         if let Some(c) = require_classes(&rec, &["runtime: >= 2 struct levels", "runtime: long-form field id", "runtime: bool field", "runtime: collection >= 15", "runtime: envelope"]) {
             rec.borrow().finish(&ctx.findings);
